@@ -93,7 +93,7 @@ class C12(Prop):
     ASSUMPTIONS = ['numeric key values are distinct in double precision (the encoding\'s stated domain) and key fields are non-null', 'multi-field keys put numeric fields before text so that the order does not depend on the particular order-preserving number encoding']
     REAL_VS_STUB = {'real': ['dataflows sort_rows', 'kvfile + sqlite ordering'], 'stub': ['KVFile twin: cache-size knob and operation counter']}
     PROBES = ['reverse', 'spill-path', 'prefix-strings-below-0', 'negative-zero', 'huge-negative', 'decimal-values', 'callable-key', 'format-string-key', 'field-list-key', 'two-field-key', 'ties', 'other-resource', 'rows>10240', 'equal-numbers-different-spelling']
-    TIERS = {'quick': dict(runs=1500, wall=100, run_wall=120),
+    TIERS = {'quick': dict(runs=1500, wall=100, run_wall=300),
              'thorough': dict(runs=40000, wall=1700, run_wall=600)}
     SHRINK_FROZEN = ('fields',)
 
